@@ -49,6 +49,15 @@ def build(targets, timeout=3000):
     """lake build of the given modules; returns (ok, failed_modules, log)"""
     rc, out, err = sh(['lake', 'build'] + targets, cwd=LEAN, timeout=timeout)
     log = out + err
+    if rc != 0 and not re.search(r'^error: \S+\.lean:\d+:\d+', log, re.M):
+        # no error located in a source file: the build tool itself failed (killed, out of memory, lock): once more, then give up
+        # as a tool failure - never as a statement about the code
+        time.sleep(10)
+        rc, out, err = sh(['lake', 'build'] + targets, cwd=LEAN, timeout=timeout)
+        log = out + err
+        if rc != 0 and not re.search(r'^error: \S+\.lean:\d+:\d+', log, re.M):
+            print('TOOL FAILURE (not a verdict): lake build failed twice without a located error\n' + log[-1500:])
+            sys.exit(2)
     failed = sorted(set(re.findall(r'^- (\S+)$', log, re.M)))
     if rc != 0 and not failed:
         failed = ['<build>']
